@@ -393,6 +393,20 @@ pub fn lists_for(j: &Session) -> Vec<(String, Vec<String>)> {
     let mut dup = j.s_big.clone();
     dup.push(j.s_big[0].clone());
     push("S'_first_duplicated", dup);
+    // an orphan: a genuine child disclosure whose hidden parent is not in the list (c[0] without c)
+    if let Some((_, child)) = j.genuine.iter().find(|(p, _)| p.len() == 2) {
+        let mut o = j.s_small.clone();
+        o.push(child.clone());
+        push("S_plus_orphan_child", o);
+    }
+    // foreign items nobody references: a made-up disclosure and a re-salted copy of a genuine one
+    let made_up = tokens::disclosure(&json!(["c2FsdHNhbHRzYWx0", "admin", true]));
+    let mut f = j.s_big.clone();
+    f.push(made_up.clone());
+    push("S'_plus_foreign_appended", f);
+    let mut f = j.s_big.clone();
+    f.insert(0, made_up);
+    push("S'_plus_foreign_prepended", f);
     out
 }
 
